@@ -377,63 +377,76 @@ def _check_state(sc, b, typ, link, fs2, model, victim, history, i, torn, n, jour
                 BP.validate_tree(fs2.tree(copy=False), b['version'])
             except BP.Invalid as ex:
                 return {'sig': 'C06:invalid-bundle-after-crash:%s' % name, 'msg': '%s: %s' % (where, ex)}
-        # first the most natural continuation: the interrupted store is simply repeated (a resumed seed does that)
-        try:
-            Store(b).store(sc['victim'][1])
-        except Exception as ex:
-            return {'sig': 'C06:store-after-restart-raises:%s:%s' % (type(ex).__name__, name),
-                    'msg': '%s: repeating the interrupted store after restart raised %r' % (where, ex)}
-        for k in sc['pool']:
-            kk = _key(k)
+        def _repeat():
+            # first the most natural continuation: the interrupted store is simply repeated (a resumed seed does that)
             try:
-                got = Store(b).load(k)
-            except Exception as ex:
-                return {'sig': 'C06:reader-raises:%s:%s' % (type(ex).__name__, name),
-                        'msg': '%s, then the store repeated: reading %r raised %r' % (where, k, ex)}
-            if kk in victim:
-                if got != victim[kk][0]:
-                    return {'sig': 'C06:repeated-store-not-readable:%s' % name,
-                            'msg': '%s: the interrupted store was repeated after restart, but %r returns %s instead of the '
-                                   'stored %s' % (where, k, C.describe(got), C.describe(victim[kk][0]))}
-                observed[kk] = got
-            elif got != observed[kk]:
-                return {'sig': 'C06:store-after-restart-damages-other-tile:%s' % name,
-                        'msg': '%s: repeating the interrupted store changed what %r returns: %s -> %s' % (
-                            where, k, C.describe(observed[kk]), C.describe(got))}
-        k0 = sc['victim'][1][0][0]
-        targets = [k0]
-        others = [k for k in sc['pool'] if _key(k) != _key(k0)]
-        if others:
-            targets.append(others[cont % len(others)])
-        for n_follow, kf in enumerate(targets):
-            fresh = {'tok': 999990 + n_follow, 'size': 100 + 2000 * n_follow} if typ != 'progress' else \
-                {'tok': 999990 + n_follow, 'size': 10}
-            try:
-                Store(b).store([[kf, fresh]])
-                got = Store(b).load(kf)
+                Store(b).store(sc['victim'][1])
             except Exception as ex:
                 return {'sig': 'C06:store-after-restart-raises:%s:%s' % (type(ex).__name__, name),
-                        'msg': '%s: storing %r again after restart raised %r' % (where, kf, ex)}
-            if got != _value(typ, fresh):
-                return {'sig': 'C06:store-after-restart-lost:%s' % name,
-                        'msg': '%s: a store to %r after restart does not read back (%s)' % (where, kf, C.describe(got))}
-            observed[_key(kf)] = got
+                        'msg': '%s: repeating the interrupted store after restart raised %r' % (where, ex)}
             for k in sc['pool']:
+                kk = _key(k)
                 try:
                     got = Store(b).load(k)
                 except Exception as ex:
                     return {'sig': 'C06:reader-raises:%s:%s' % (type(ex).__name__, name),
-                            'msg': '%s, then a store to %r: reading %r raised %r' % (where, kf, k, ex)}
-                if got != observed[_key(k)]:
+                            'msg': '%s, then the store repeated: reading %r raised %r' % (where, k, ex)}
+                if kk in victim:
+                    if got != victim[kk][0]:
+                        return {'sig': 'C06:repeated-store-not-readable:%s' % name,
+                                'msg': '%s: the interrupted store was repeated after restart, but %r returns %s instead of the '
+                                       'stored %s' % (where, k, C.describe(got), C.describe(victim[kk][0]))}
+                    observed[kk] = got
+                elif got != observed[kk]:
                     return {'sig': 'C06:store-after-restart-damages-other-tile:%s' % name,
-                            'msg': '%s: after restart a store to %r changed what %r returns: %s -> %s' % (
-                                where, kf, k, C.describe(observed[_key(k)]), C.describe(got))}
-            if typ == 'compact':
+                            'msg': '%s: repeating the interrupted store changed what %r returns: %s -> %s' % (
+                                where, k, C.describe(observed[kk]), C.describe(got))}
+            return None
+
+        def _fresh():
+            k0 = sc['victim'][1][0][0]
+            targets = [k0]
+            others = [k for k in sc['pool'] if _key(k) != _key(k0)]
+            if others:
+                targets.append(others[cont % len(others)])
+            for n_follow, kf in enumerate(targets):
+                fresh = {'tok': 999990 + n_follow, 'size': 100 + 2000 * n_follow} if typ != 'progress' else \
+                    {'tok': 999990 + n_follow, 'size': 10}
                 try:
-                    BP.validate_tree(fs2.tree(copy=False), b['version'])
-                except BP.Invalid as ex:
-                    return {'sig': 'C06:invalid-bundle-after-restart-store:%s' % name, 'msg': '%s: %s' % (where, ex)}
+                    Store(b).store([[kf, fresh]])
+                    got = Store(b).load(kf)
+                except Exception as ex:
+                    return {'sig': 'C06:store-after-restart-raises:%s:%s' % (type(ex).__name__, name),
+                            'msg': '%s: storing %r again after restart raised %r' % (where, kf, ex)}
+                if got != _value(typ, fresh):
+                    return {'sig': 'C06:store-after-restart-lost:%s' % name,
+                            'msg': '%s: a store to %r after restart does not read back (%s)' % (where, kf, C.describe(got))}
+                observed[_key(kf)] = got
+                for k in sc['pool']:
+                    try:
+                        got = Store(b).load(k)
+                    except Exception as ex:
+                        return {'sig': 'C06:reader-raises:%s:%s' % (type(ex).__name__, name),
+                                'msg': '%s, then a store to %r: reading %r raised %r' % (where, kf, k, ex)}
+                    if got != observed[_key(k)]:
+                        return {'sig': 'C06:store-after-restart-damages-other-tile:%s' % name,
+                                'msg': '%s: after restart a store to %r changed what %r returns: %s -> %s' % (
+                                    where, kf, k, C.describe(observed[_key(k)]), C.describe(got))}
+                if typ == 'compact':
+                    try:
+                        BP.validate_tree(fs2.tree(copy=False), b['version'])
+                    except BP.Invalid as ex:
+                        return {'sig': 'C06:invalid-bundle-after-restart-store:%s' % name, 'msg': '%s: %s' % (where, ex)}
+            return None
+
+        # the order of the two continuations alternates: repeating the interrupted store first can repair what a
+        # later unrelated store would otherwise trip over, and the other way round
+        for step in ((_repeat, _fresh) if cont % 2 == 0 else (_fresh, _repeat)):
+            r = step()
+            if r is not None:
+                return r
         # ... and a remove of the victim address (tile caches only)
+        k0 = sc['victim'][1][0][0]
         if typ in ('file', 'compact'):
             try:
                 Store(b).remove(k0)
